@@ -174,10 +174,10 @@ pub fn mod_n_from_hash(ha: &[u8]) -> U256 {
 
     let (sum1, carry1) = r[4].overflowing_add(z[3]);
     r[4] = sum1;
-    let t = z[4] + carry1 as u64;
-    let (sum2, carry2) = r[5].overflowing_add(t);
-    r[5] = sum2;
-    r[6] = u64::from(carry2);
+    // z[4] may be 2^64 - 1 with a carry coming in: keep the sum in 128 bits
+    let sum2 = r[5] as u128 + z[4] as u128 + carry1 as u128;
+    r[5] = sum2 as u64;
+    r[6] = (sum2 >> 64) as u64;
 
     r = u256_mul(&[r[5], r[6], 0, 0], &SM9_N_MINUS_ONE);
     h = u256_sub(&[z[0], z[1], z[2], z[3]], &[r[0], r[1], r[2], r[3]]).0;
